@@ -24,14 +24,15 @@ META = {
 JWT_CFG = {"key": "hs-secret-key-0123456789abcdef0123456789", "alg": "HS256", "iss": "https://as.example", "exp": 3600}
 REG1 = "https://client.example/cb"
 REG2 = "https://client.example/cb2?x=1&y=a%20b"
+REG4 = "https://client.example/cb4?tenant=&env=prod&flag"      # a registered query with an empty-valued and a valueless parameter
 REG3 = "https://client.example/cb3?tenant[id]=42&lang=en&q=a$b'c|d~e"      # a registered query with characters outside authlib's strict urlencoded set
 CLIENTS = [
-    {"id": "c1", "redirect_uris": [REG1, REG2, REG3], "response_types": ["code", "code id_token", "code token"], "auth_method": "client_secret_basic", "scope": "a b openid"},
+    {"id": "c1", "redirect_uris": [REG1, REG2, REG3, REG4], "response_types": ["code", "code id_token", "code token"], "auth_method": "client_secret_basic", "scope": "a b openid"},
     {"id": "p1", "redirect_uris": [REG1], "response_types": ["token", "id_token", "id_token token", "code id_token", "code id_token token", "code"], "auth_method": "none", "scope": "a openid"},
     {"id": "lb", "redirect_uris": ["http://127.0.0.1:8000/cb", "http://[::1]:8000/cb", "http://localhost:8000/cb"], "response_types": ["code", "token"], "auth_method": "none", "scope": "a"},
     {"id": "nr", "redirect_uris": [], "response_types": ["code", "token"], "auth_method": "none", "scope": "a"},
 ]
-REDIRECTS = [None, REG1, REG2, REG3, "https://evil.example/x", REG1 + "/", REG1 + "?", REG1 + "x", "https://client.example.evil.example/cb",
+REDIRECTS = [None, REG1, REG2, REG3, REG4, "https://evil.example/x", REG1 + "/", REG1 + "?", REG1 + "x", "https://client.example.evil.example/cb",
              REG1 + "#f", "https://CLIENT.example/cb", "", "//x", "https:/x", "javascript:alert(1)", "https://client.example/cb2",
              "https://client.example/cb2?x=1"]
 RESPONSE_TYPES = ["code", "token", "id_token", "id_token token", "token id_token", "code id_token", "code token", "id_token code token",
@@ -39,10 +40,10 @@ RESPONSE_TYPES = ["code", "token", "id_token", "id_token token", "token id_token
 SCOPES = [None, "a", "openid", "a openid", "openid a", "zzz", ""]
 
 
-def build(scopes_supported, used_nonces, require_nonce):
+def build(scopes_supported, used_nonces, require_nonce, transport="neutral"):
     store = S.Store()
     store.used_nonces = set(used_nonces)
-    srv = S.Server(store, scopes_supported=scopes_supported)
+    srv = S.Server(store, scopes_supported=scopes_supported, transport=transport)
     g = S.make_grants(store)
 
     class OIDCCode(OpenIDCode):
@@ -138,10 +139,21 @@ def expected_target(data):
 
 
 def run_one(ctx, cfg_key, scopes_supported, used, require_nonce, query, form, approve):
+    # the same request through the framework-free server and through the repository's Flask and Django glue
+    from impl import transports as T
+    for transport in T.TRANSPORTS:
+        uri = "https://as.example/authorize" + ("?" + url_encode(query) if query else "")
+        req = S.HReq("POST" if form else "GET", uri, dict(form) if form else None, {})
+        if transport == "neutral" or (T.usable(req, transport) and len(set(k for k, _ in list(query) + list(form))) == len(list(query) + list(form))):
+            _run_one(ctx, cfg_key, scopes_supported, used, require_nonce, query, form, approve, transport)
+
+
+def _run_one(ctx, cfg_key, scopes_supported, used, require_nonce, query, form, approve, transport):
     m = ctx.model
-    store, srv = build(scopes_supported, used, require_nonce)
+    store, srv = build(scopes_supported, used, require_nonce, transport)
     uri = "https://as.example/authorize" + ("?" + url_encode(query) if query else "")
     req = S.HReq("POST" if form else "GET", uri, dict(form) if form else None, {})
+    ctx.count("transport:" + transport)
     registered_all = [u for c in CLIENTS for u in c["redirect_uris"]]
     # two ways an integrator reaches the endpoint: directly, or -- as the documented consent page does -- by first asking for the
     # consent grant with the logged-in user on ONE request object that is then used for the decision as well
@@ -153,9 +165,11 @@ def run_one(ctx, cfg_key, scopes_supported, used, require_nonce, query, form, ap
             from authlib.oauth2 import OAuth2Request
             from authlib.oauth2.base import OAuth2Error as _E
             oreq = OAuth2Request(req.method, req.uri, req.form, req.headers)
+            # (behind a framework the consent page and the decision are two HTTP requests, each wrapped by the glue)
+            creq = oreq if transport == "neutral" else req
             try:
-                srv.get_consent_grant(oreq, end_user=S.User("alice"))
-                resp = srv.create_authorization_response(oreq, grant_user=S.User("alice") if approve else None)
+                srv.get_consent_grant(creq, end_user=S.User("alice"))
+                resp = srv.create_authorization_response(creq, grant_user=S.User("alice") if approve else None)
             except _E as error:
                 resp = srv.handle_error_response(oreq, error)
         else:
@@ -170,8 +184,8 @@ def run_one(ctx, cfg_key, scopes_supported, used, require_nonce, query, form, ap
                                        "query": [[k.encode(), v.encode()] for k, v in query],
                                        "form": [[k.encode(), v.encode()] for k, v in form], "approve": approve})
     case = {"query": query, "form": form, "approve": approve, "scopes_supported": scopes_supported, "used_nonces": used, "require_nonce": require_nonce,
-            "via_consent_grant": via_consent}
-    ctx.case(case, (json.dumps(query), json.dumps(form), approve, cfg_key), "authorize:" + (":".join(map(str, got[:1] + ([got[2]] if got[0] == "local" else [])))))
+            "via_consent_grant": via_consent, "transport": transport}
+    ctx.case(case, (json.dumps(query), json.dumps(form), approve, cfg_key, transport), "authorize:" + (":".join(map(str, got[:1] + ([got[2]] if got[0] == "local" else [])))))
     if got[0] != "escapes":
         ctx.compare("authorize_respond", case, got, mod)
     # ---- the property on the implementation
